@@ -89,6 +89,10 @@ STATEFUL = {
                   lambda now, d: ("M1|set|" if d["flag"] else "||01")),
     "datefmt": ("{{ '2024-01-15 10:30' | date: '%Y/%m/%d %H:%M' }}|{{ 86400 | date: '%Y-%m-%d' }}|{{ n | plus: m }}",
                 lambda now, d: "2024/01/15 10:30|1970-01-02|" + str(d["n"] + d["m"])),
+    "sortdata": ("{{ unsorted | sort | join: ',' }}|{{ unsorted | join: ',' }}|{{ unsorted | reverse | first }}"
+                 "|{{ unsorted | sort_natural | last }}{{ unsorted | sort_numeric | first }}|{{ unsorted | first }}"
+                 "{% assign u2 = unsorted | concat: unsorted | uniq %}{{ u2 | size }}{{ unsorted | size }}",
+                 lambda now, d: "1,2,3|3,1,2|2|31|333"),
     "nowtwice": ("{{ 'now' | date: '%s' }}-{{ 'now' | date: '%s' }}-{{ now | date: '%s' }}",
                  lambda now, d: f"{int(now)}-{int(now)}-{int(now)}"),
 }
@@ -300,6 +304,10 @@ class PristineRef:
         simclock.CLOCK.now = req["now"]
         ei = req["ei"]
         w.env_events[ei] = [tuple(e) for e in req["events"]]
+        if req.get("probe"):
+            inst = w.fresh_for(ei)
+            w.activate(inst, ei)
+            return _listify(w.probe_env(inst.envs[ei], ei))
         for hid, h in req["hspec"].items():
             w.hspec[int(hid)] = h
         inst = w.fresh_for(ei, req["step"]["h"])
@@ -318,6 +326,18 @@ class PristineRef:
         if rep[0] == "harness_error":
             raise RuntimeError("pristine reference failed: " + rep[1])
         return _detuple(rep)
+
+    def ask_probe(self, w, ei: int):
+        self._write_msg(self.req_w, {"now": w.clock.now, "t0": w.t0, "ei": ei, "events": w.env_events[ei],
+                                     "hspec": {}, "probe": True})
+        rep = self._read_msg(self.rep_r)
+        if rep is None:
+            raise RuntimeError("pristine reference server died")
+        if rep and rep[0] == "inconclusive":
+            raise Inconclusive(rep[1])
+        if rep and rep[0] == "harness_error":
+            raise RuntimeError("pristine reference failed: " + rep[1])
+        return rep
 
     def close(self) -> None:
         import os
@@ -441,6 +461,7 @@ class World:
     def raw_data(self, spec: dict) -> dict:
         d = gprog.make_data(random.Random(spec["seed"]))
         d["nums"] = [1, 2, 3, 4]
+        d["unsorted"] = [3, 1, 2]
         d.update(spec.get("extra") or {})
         return d
 
@@ -854,6 +875,18 @@ def execute(plan: dict) -> dict:
         w.pristine = pristine
         for step in plan["steps"]:
             do_step(w, step)
+        if pristine is not None:
+            # the same probe texts parsed and rendered under every environment's own
+            # configuration, in this (used) process and in one that never rendered
+            for ei, env in w.shared.envs.items():
+                if plan["envs"][ei].get("default_global"):
+                    continue
+                w.activate(w.shared, ei)
+                here = json.loads(json.dumps(_listify(w.probe_env(env, ei)), default=str))
+                there = pristine.ask_probe(w, ei)
+                if here != there:
+                    raise Violation("probe_differs_from_pristine_process", env=ei, got=_short(here), expected=_short(there))
+                w.count("pristine_probe_ok")
     except Violation as v:
         status = "violation"
         violation = {"property": PROP, "kind": v.kind, **json.loads(json.dumps(v.detail, default=str))}
